@@ -38,6 +38,7 @@ def run(rep, tier):
     kernels.run_generators(rep, ["measure_vector", "measure_matrix"])
     from vf.pyvc import tensors
     tensors.run_tensor_contracts(rep, ["C04"])
+    kernels.run_delegation(rep, ['measure'])
     kernels.run_scope(rep, B.STATE_FILES)
     key_linearity_obligations(rep)
     B.run_b(rep, morecells.measure_cells(tier, common.seed()), ["C04"], explore=True, tier=tier)
